@@ -47,7 +47,7 @@ inline bool maskBit(const std::string &hex, size_t bit) {
 
 inline GSpec parseGSpec(const Case &c, bool directed) {
     GSpec s;
-    s.n = (size_t)std::min<long long>(64, std::max<long long>(0, c.geti("n", 0)));
+    s.n = (size_t)std::min<long long>(200, std::max<long long>(0, c.geti("n", 0)));
     s.padFront = (size_t)std::min<long long>(4, std::max<long long>(0, c.geti("pad_front", 0)));
     s.padBack = (size_t)std::min<long long>(4, std::max<long long>(0, c.geti("pad_back", 0)));
     std::string mask = c.get("mask", "");
@@ -101,6 +101,10 @@ inline GSpec parseGSpec(const Case &c, bool directed) {
             f.force = true;
             s.edges.push_back(f);
         }
+        // `op hub c lo cnt x`: the edges (c, lo), (c, lo+1), ... (cnt of them, modulo n; c itself gives a self-loop): a vertex of large degree
+        if (op.kind == "hub" && s.n > 0)
+            for (unsigned long long k = 0; k < op.u(2) && k < s.n; ++k)
+                s.edges.push_back(GEdge{(unsigned)(op.u(0) % s.n), (unsigned)((op.u(1) + k) % s.n), op.i(3) + (long long)(k % 5)});
         if (op.kind == "r" && s.n > 0) {
             GEdge r{(unsigned)(op.u(0) % s.n), (unsigned)(op.u(1) % s.n), 0};
             r.remove = true;
